@@ -71,6 +71,141 @@ struct Init {
         simple("C08", "one seed = one program whose collective put/get calls (var1/var/vara/vars/varm, varn, vard families; fixed and record variables) give each of 2..8 ranks valid, zero-length or invalid arguments (bad varid, start, edge, negative count, stride, char/number mismatch), with safe mode on in a quarter of the seeds (errors then shared), intra-node aggregation and hints varied, eager/synchronising collectives and starvation in the schedule; the simulated MPI matches every collective by sequence number and reports the first mismatch or deadlock exactly; oracle: no mismatch, no hang, each rank's return code as documented (own error locally / shared in safe mode), valid ranks' data stored; non-trivial = at least one rank had an invalid or zero-length request in a collective call on >= 2 ranks",
                [](bool th) { GenParams g; g.invalid_args = true; g.min_np = 2; g.max_np = th ? 8 : 6; g.max_data_ops = th ? 20 : 12; g.hints = true; g.nonblocking = true; g.fill = true; g.max_dimlen = 4; return g; },
                [](const Program &q, const RunResult &r) { if (q.cfg.sim.nprocs < 2 || !r.completed) return false; for (auto &op : q.ops) if (!op.skip && (op.kind == OP_PUT || op.kind == OP_GET) && op.coll) for (auto &a : op.acc) if (!a.active || a.invalid || a.exp_rc != NC_NOERR) return true; return false; });
+        {   // C14 mode state machine and error precedence
+            Profile p; p.id = "C14"; p.level = "exploration"; p.exhaustive = false;
+            p.technique = "deterministic simulation: exhaustive (depth 3) and seeded (depth 12) histories of mode-changing calls with probe calls from every API family, against a reference mode automaton";
+            p.rule = "histories over the mode-changing alphabet {enddef, redef, begin_indep, end_indep, close+reopen rw, close+reopen ro, abort+reopen} from three starts {created, opened writable, opened read-only}; after every step one probe call from each API family (define, attribute, set_fill, collective and independent get, collective put, nonblocking post+cancel, wait_all, wait, cancel, sync, sync_numrecs, buffer attach/detach, inquiry) is issued by all ranks; seeds map to all 3 x 7^3 = 1029 histories of depth 3 (enumerated completely every run) and to seeded walks of depth 4..12; oracle: return code == reference automaton (documented precedence EPERM, EINDEFINE, ... for put/get and put_att; either applicable code where no precedence is documented), a rejected call changes no byte of the file (image diff around it) and later calls still behave as the automaton says; non-trivial = at least one call was rejected and one accepted";
+            p.gen = [](uint64_t seed, bool th) {
+                Program q; q.seed = seed; q.cfg.profile = "C14"; sim::Rng rng(seed * 2654435761ULL + 17);
+                q.cfg.sim.nprocs = 1 + (int)(seed % 3 == 0 ? 0 : 1 + rng.below(2)); q.cfg.sim.node_of.assign(q.cfg.sim.nprocs, 0); q.cfg.sim.deviate = (seed % 2) ? 0.2 : 0; q.cfg.format = (int[]){1, 2, 5}[seed % 3];
+                int np = q.cfg.sim.nprocs;
+                Model gm; gm.init(np, 2); gm.cur_ops = &q.ops;
+                auto emit = [&](Op op) -> bool { q.ops.push_back(op); gm.cur_ops = &q.ops; bool ok = model_step(gm, q.ops.back()); if (!ok) { q.ops.pop_back(); gm.opidx--; } return ok; };
+                auto mk = [&](int kind) { Op o; o.kind = kind; o.file = 0; return o; };
+                // prelude: a file with one fixed and one record variable and a record
+                { Op c = mk(OP_CREATE); c.name = "/sim/m.nc"; c.a[0] = q.cfg.format; emit(c); Op d = mk(OP_DEF_DIM); d.name = "x"; d.a[0] = 3; emit(d); Op t = mk(OP_DEF_DIM); t.name = "t"; t.a[0] = 0; emit(t);
+                  Op v = mk(OP_DEF_VAR); v.name = "v"; v.a[0] = NC_DOUBLE; v.dims = {0}; emit(v); Op w = mk(OP_DEF_VAR); w.name = "r"; w.a[0] = NC_DOUBLE; w.dims = {1, 0}; emit(w); emit(mk(OP_ENDDEF));
+                  Op pu = mk(OP_PUT); pu.var = 1; pu.coll = true; for (int r = 0; r < np; r++) { Access a; a.form = F_VARA; a.start = {0, 0}; a.count = {1, 3}; a.memtype = MT_DOUBLE; a.active = (r == 0); if (!a.active) a.count = {0, 0}, a.active = true; pu.acc.push_back(a); } emit(pu);
+                  emit(mk(OP_CLOSE)); }
+                uint64_t idx = (seed - 1) % 4000; bool exhaustive = idx < 1029;
+                int start = exhaustive ? (int)(idx / 343) : (int)rng.below(3);
+                std::vector<int> steps;
+                if (exhaustive) { uint64_t k = idx % 343; for (int i = 0; i < 3; i++) { steps.push_back((int)(k % 7)); k /= 7; } }
+                else { int n = 4 + (int)rng.below(9); for (int i = 0; i < n; i++) steps.push_back((int)rng.below(7)); }
+                if (start == 0) { Op c = mk(OP_CREATE); c.name = "/sim/n.nc"; c.a[0] = q.cfg.format; emit(c); Op d = mk(OP_DEF_DIM); d.name = "x"; d.a[0] = 3; emit(d); Op v = mk(OP_DEF_VAR); v.name = "v"; v.a[0] = NC_DOUBLE; v.dims = {0}; emit(v); }
+                else { Op o = mk(OP_OPEN); o.name = "/sim/m.nc"; o.a[0] = (start == 1); emit(o); }
+                int pctr = 0;
+                auto probes = [&]() {
+                    static const int codes[] = {0, 17, 1, 2, 15, 4, 5, 6, 7, 8, 9, 10, 11, 16, 14};
+                    for (int code : codes) {
+                        Op pr = mk(OP_PROBE); pr.a[0] = code; pr.a[1] = rng.below(2); pr.name = "p" + std::to_string(pctr++);
+                        // decide with the model whether the call will be rejected: wrap rejected calls in an image comparison
+                        Model trial = gm; Op t = pr; trial.cur_ops = nullptr; bool ok = model_step(trial, t);
+                        if (!ok) continue;
+                        bool rejected = t.exp_rc != NC_NOERR;
+                        if (rejected) { Op c3 = mk(OP_CHECKPOINT); c3.a[0] = 3; emit(c3); }
+                        emit(pr);
+                        if (rejected) { Op c4 = mk(OP_CHECKPOINT); c4.a[0] = 4; emit(c4); }
+                    }
+                };
+                probes();
+                std::string path = start == 0 ? "/sim/n.nc" : "/sim/m.nc";
+                for (int st : steps) {
+                    Op o = mk(OP_BARRIER);
+                    switch (st) {
+                    case 0: o = mk(OP_ENDDEF); o.a[4] = 1; emit(o); break;
+                    case 1: o = mk(OP_REDEF); o.a[4] = 1; emit(o); break;
+                    case 2: o = mk(OP_BEGIN_INDEP); o.a[4] = 1; emit(o); break;
+                    case 3: o = mk(OP_END_INDEP); o.a[4] = 1; emit(o); break;
+                    case 4: case 5: emit(mk(OP_CLOSE)); { Op op2 = mk(OP_OPEN); op2.name = path; op2.a[0] = (st == 4); emit(op2); } break;
+                    case 6: emit(mk(OP_ABORT)); { Op op2 = mk(OP_OPEN); op2.name = path; op2.a[0] = 1; emit(op2); } break;
+                    }
+                    probes();
+                }
+                emit(mk(OP_CLOSE)); { Op cp = mk(OP_CHECKPOINT); emit(cp); }
+                gm.cur_ops = nullptr;
+                return q;
+            };
+            p.check = [](Program &q) { RunOpts o; return run_program(q, o); };
+            p.nontrivial = [](const Program &q, const RunResult &r) { bool rej = false, acc = false; for (auto &op : q.ops) if (!op.skip && (op.kind == OP_PROBE || op.a[4] == 1)) { if (op.exp_rc != NC_NOERR) rej = true; else acc = true; } return r.completed && rej && acc; };
+            reg(p);
+        }
+        {   // C15 out-of-range requests rejected; writes stay inside their target
+            struct Blk { std::vector<long long> shape; bool rec; int form; bool nb; bool rd; bool strict; long long ntup; long long first_prog; };
+            static std::vector<Blk> blocks; static long long total_progs = 0; static const int B = 24;
+            auto dom = [](const Blk &b, size_t d, int &ns, int &nc, int &nst) { long long len = b.shape[d]; ns = (int)len + 3; nc = (b.form == F_VAR1) ? 1 : (int)len + 3; nst = (b.form == F_VARS || b.form == F_VARM) ? 5 : 1; };
+            if (blocks.empty()) {
+                std::vector<std::vector<long long>> shapes = {{1}, {2}, {3}, {2, 3}, {3, 2}, {1, 3}, {2, 2, 2}};
+                for (auto &sh : shapes) for (int rec = 0; rec < 2; rec++) for (int rd = 0; rd < 2; rd++) for (int strict = 0; strict < 2; strict++) {
+                    std::vector<std::pair<int, bool>> forms = {{F_VARA, false}, {F_VAR1, false}, {F_VARN, false}, {F_VARA, true}};
+                    if (sh.size() <= 2) { forms.push_back({F_VARS, false}); forms.push_back({F_VARM, false}); }
+                    for (auto &fm : forms) {
+                        Blk b; b.shape = sh; b.rec = rec; b.form = fm.first; b.nb = fm.second; b.rd = rd; b.strict = strict; b.ntup = 1;
+                        for (size_t d = 0; d < sh.size(); d++) { int ns, nc, nst; dom(b, d, ns, nc, nst); b.ntup *= (long long)ns * nc * nst; }
+                        b.first_prog = total_progs; total_progs += (b.ntup + B - 1) / B; blocks.push_back(b);
+                    }
+                }
+            }
+            Profile p; p.id = "C15"; p.level = "exploration"; p.space_seeds = total_progs;
+            p.technique = "deterministic simulation: complete enumeration of (start,count,stride) tuples on small shapes with a byte diff of the simulated disk around every request";
+            p.rule = "shapes {1},{2},{3},{2,3},{3,2},{1,3},{2,2,2} x {fixed, record} x {get, put} x {relaxed, strict coordinate bound} x API forms {vara, var1, varn, nonblocking vara + wait; vars and varm for rank <= 2}; per dimension start and count range over [-1, len+1] and stride over {-1,0,1,2,len+1}; every tuple of that product is one case (" + std::to_string(total_progs) + " programs of " + std::to_string(B) + " cases; seeds 1.." + std::to_string(total_progs) + " enumerate them all, later seeds repeat them under other schedules / formats / rank counts); around each request the file image is snapshotted and diffed; oracle: return code == reference predicate (documented order EINVALCOORDS, EEDGE/ENEGATIVECNT, ESTRIDE), a rejected or zero-length request changes no byte, an accepted one only bytes of the addressed elements or the record count, values read back == model; non-trivial = the program contained both an accepted and a rejected request";
+            p.gen = [dom](uint64_t seed, bool th) {
+                Program q; q.seed = seed; q.cfg.profile = "C15";
+                long long pi = (long long)((seed - 1) % (uint64_t)total_progs); uint64_t lap = (seed - 1) / (uint64_t)total_progs;
+                size_t bi = 0; while (bi + 1 < blocks.size() && blocks[bi + 1].first_prog <= pi) bi++;
+                const Blk &b = blocks[bi]; long long t0 = (pi - b.first_prog) * B;
+                sim::Rng rng(seed * 0x9e3779b97f4a7c15ULL + 5);
+                q.cfg.sim.nprocs = (lap == 0) ? 1 + (int)(pi % 2) : 1 + (int)rng.below(3);
+                if (b.rec && !b.rd) q.cfg.sim.nprocs = 1;   // invalid arguments in a collective put to a record variable on several ranks: C08 known finding (zero-req path), kept out of this check
+                int np = q.cfg.sim.nprocs; q.cfg.sim.node_of.assign(np, 0);
+                q.cfg.sim.deviate = lap ? 0.2 : 0.0; q.cfg.format = (int[]){1, 2, 5}[(pi + lap) % 3];
+                if (b.strict) q.cfg.sim.env["PNETCDF_RELAX_COORD_BOUND"] = "0";
+                Model gm; gm.init(np, 1); gm.strict_coord = b.strict; gm.cur_ops = &q.ops;
+                auto emit = [&](Op op) -> bool { q.ops.push_back(op); gm.cur_ops = &q.ops; bool ok = model_step(gm, q.ops.back()); if (!ok) { q.ops.pop_back(); gm.opidx--; } return ok; };
+                auto mk = [&](int kind) { Op o; o.kind = kind; o.file = 0; return o; };
+                { Op c = mk(OP_CREATE); c.name = "/sim/r.nc"; c.a[0] = q.cfg.format; emit(c); }
+                size_t nd = b.shape.size();
+                for (size_t d = 0; d < nd; d++) { Op dd = mk(OP_DEF_DIM); dd.name = "d" + std::to_string(d); dd.a[0] = (b.rec && d == 0) ? 0 : b.shape[d]; emit(dd); }
+                { Op g = mk(OP_DEF_VAR); g.name = "guard0"; g.a[0] = NC_INT; g.dims = {}; if (nd > 1 || !b.rec) { g.dims = {(long long)(nd - 1)}; } emit(g); }
+                { Op v = mk(OP_DEF_VAR); v.name = "v"; v.a[0] = (int[]){NC_INT, NC_SHORT, NC_DOUBLE, NC_BYTE}[pi % 4]; for (size_t d = 0; d < nd; d++) v.dims.push_back((long long)d); emit(v); }
+                { Op g = mk(OP_DEF_VAR); g.name = "guard1"; g.a[0] = NC_SHORT; if (b.rec) g.dims = {0}; else g.dims = {(long long)(nd - 1)}; emit(g); }
+                emit(mk(OP_ENDDEF));
+                // pre-fill the target and its neighbours so that misplaced bytes are visible
+                for (int var = 0; var < 3; var++) {
+                    Op pu = mk(OP_PUT); pu.var = var; pu.coll = true; MVar &mv = gm.files[0].vars[var];
+                    for (int r = 0; r < np; r++) { Access a; a.form = F_VARA; a.memtype = native_memtype(mv.type); a.start.assign(mv.dimids.size(), 0); a.count = mv.shape; if (mv.isrec) a.count[0] = b.shape[0]; if (r != 0) { a.active = mv.dimids.empty(); if (!mv.dimids.empty()) { a.active = true; a.count.assign(mv.dimids.size(), 0); } } pu.acc.push_back(a); }
+                    emit(pu);
+                }
+                emit(mk(OP_SYNCPOINT));
+                for (long long t = t0; t < t0 + B && t < b.ntup; t++) {
+                    long long k = t; Access a; a.form = b.form; a.memtype = native_memtype(gm.files[0].vars[1].type);
+                    a.start.assign(nd, 0); a.count.assign(nd, 1); if (b.form == F_VARS || b.form == F_VARM) a.stride.assign(nd, 1);
+                    for (size_t d = 0; d < nd; d++) {
+                        int ns, nc, nst; dom(b, d, ns, nc, nst); long long len = b.shape[d];
+                        a.start[d] = -1 + (k % ns); k /= ns;
+                        if (b.form != F_VAR1) { a.count[d] = -1 + (k % nc); } k /= nc;
+                        if (nst > 1) { static const long long sv[] = {-1, 0, 1, 2, 0}; int si = (int)(k % nst); a.stride[d] = si == 4 ? len + 1 : sv[si]; } k /= nst;
+                    }
+                    if (b.form == F_VARM) { a.imap.assign(nd, 1); long long mm = 1; for (int d = (int)nd - 1; d >= 0; d--) { a.imap[d] = mm; mm *= std::max<long long>(a.count[d], 1); } }
+                    if (b.form == F_VARN) { a.nstart = {a.start}; a.ncount = {a.count}; }
+                    { Op c5 = mk(OP_CHECKPOINT); c5.a[0] = 5; emit(c5); }
+                    Op o = mk(b.nb ? (b.rd ? OP_IGET : OP_IPUT) : (b.rd ? OP_GET : OP_PUT)); o.var = 1; o.coll = true;
+                    int actor = (int)(t % np);
+                    for (int r = 0; r < np; r++) { Access x = a; x.active = (r == actor); o.acc.push_back(x); }
+                    emit(o);
+                    if (b.nb) { Op w = mk(OP_WAIT); w.coll = true; w.waits.resize(np); for (auto &ws : w.waits) ws.mode = 1; emit(w); }
+                    { Op c6 = mk(OP_CHECKPOINT); c6.a[0] = 6; emit(c6); }
+                    if (!b.rd && (t % 4 == 3)) emit(mk(OP_SYNCPOINT));
+                }
+                emit(mk(OP_CLOSE)); emit(mk(OP_CHECKPOINT));
+                gm.cur_ops = nullptr;
+                return q;
+            };
+            p.check = [](Program &q) { RunOpts o; return run_program(q, o); };
+            p.nontrivial = [](const Program &q, const RunResult &r) { bool rej = false, acc = false; for (auto &op : q.ops) if (!op.skip && (op.kind == OP_PUT || op.kind == OP_GET || op.kind == OP_IPUT || op.kind == OP_IGET)) for (auto &a : op.acc) if (a.active) { if (a.exp_rc != NC_NOERR) rej = true; else acc = true; } return r.completed && rej && acc; };
+            p.quick_s = 60; p.thorough_s = 600;
+            reg(p);
+        }
         {   // C17 lifecycle of handles and resources
             Profile p; p.id = "C17"; p.level = "exploration";
             p.technique = "deterministic simulation with fault injection: seeded histories over several files + resource accounting at the allocation / MPI-object seams";
